@@ -514,7 +514,11 @@ size_t ZSTD_seekable_decompress(ZSTD_seekable* zs, void* dst, size_t len, unsign
             }
         }
 
-        while (zs->decompressedOffset < offset + len) {
+        /* keep going after the last requested byte when it is also the last byte of its frame and checksums are on :
+         * the frame's checksum can only be verified once the decoder reports the frame complete */
+        while (zs->decompressedOffset < offset + len
+           || (zs->seekTable.checksumFlag && len > 0 && targetFrame < zs->seekTable.tableLen
+               && zs->decompressedOffset == zs->seekTable.entries[targetFrame + 1].dOffset)) {
             size_t toRead;
             ZSTD_outBuffer outTmp;
             size_t prevOutPos;
@@ -524,7 +528,11 @@ size_t ZSTD_seekable_decompress(ZSTD_seekable* zs, void* dst, size_t len, unsign
                 /* dummy decompressions until we get to the target offset */
                 outTmp = (ZSTD_outBuffer){zs->outBuff, (size_t) (MIN(SEEKABLE_BUFF_SIZE, offset - zs->decompressedOffset)), 0};
             } else {
-                outTmp = (ZSTD_outBuffer){dst, len, (size_t) (zs->decompressedOffset - offset)};
+                /* never let a frame produce more than the seek table declares for it :
+                 * its checksum is only verified once the frame is complete */
+                unsigned long long const frameEnd = (targetFrame < zs->seekTable.tableLen) ? zs->seekTable.entries[targetFrame + 1].dOffset : eos;
+                size_t const outLimit = (size_t)(MIN(offset + len, frameEnd) - offset);
+                outTmp = (ZSTD_outBuffer){dst, outLimit, (size_t) (zs->decompressedOffset - offset)};
             }
 
             prevOutPos = outTmp.pos;
@@ -551,6 +559,13 @@ size_t ZSTD_seekable_decompress(ZSTD_seekable* zs, void* dst, size_t len, unsign
 
             if (toRead == 0) {
                 /* frame complete */
+
+                /* it must have produced exactly what the seek table declares for it ;
+                 * otherwise restarting at the frame holding the current offset would loop on the same frame forever */
+                if (targetFrame >= zs->seekTable.tableLen
+                 || zs->decompressedOffset != zs->seekTable.entries[targetFrame + 1].dOffset) {
+                    return ERROR(corruption_detected);
+                }
 
                 /* verify checksum */
                 if (zs->seekTable.checksumFlag &&
